@@ -274,6 +274,51 @@ def kinds_rule(prog, chk):
     chk.floor("C06k-kinded", nk, 10)
 
 
+def distance_use_rule(prog, chk):
+    """C06h2 - inside the ball tree every distance is computed with the pluggable function the tree was configured with: the concrete
+    distances (euclidean_distance, manhattan_distance) are named only where that function is chosen.  A node radius or a query bound
+    computed with another distance than the one used to rank the points prunes sub-trees that hold closer points."""
+    n = 0
+    concrete = {"euclidean_distance", "manhattan_distance"}
+    for f in sorted(prog.funcs, key=lambda x: (x.file, x.line)):
+        if f.body is None or not f.file.endswith("src/Tree/ball_algorithm.cpp") or f.name in concrete:
+            continue
+        uses = [x for x in f.walk() if (x["k"] == "Call" and (x.get("callee") or "") in concrete) or
+                (x["k"] == "DeclRefExpr" and x.get("n") in concrete and x.get("dk") in ("func", "other"))]
+        calls_ptr = any(x["k"] == "ICall" for x in f.walk())
+        if not uses and not calls_ptr:
+            continue
+        n += 1
+        chk.analysed(f)
+        ok = not uses or f.name == "define_dist_function"
+        chk.ob("C06h2", "%s: distances are computed through the function the tree was configured with" % f.name, f.loc(uses[0]) if uses else f.loc(), ok,
+               detail=None if ok else "`%s` is called directly: for a tree configured with another distance, radii / bounds and rankings are computed with "
+               "different distances and the k nearest points are not the ones returned" % (uses[0].get("callee") or uses[0].get("n")),
+               key="C06h2|%s" % f.name)
+    chk.floor("C06h2", n, 3)
+
+
+def attach_rule(prog, chk):
+    """C06m - ANeigh::attach() (re)binds the data bases: every successful path rebuilds the ball tree of the searched data base and
+    invalidates the memorised neighbourhood, also when the same objects are attached again (their content may have changed)."""
+    f = prog.fn("ANeigh::attach")
+    chk.analysed(f)
+    g = CFG(f)
+    ok_ret = lambda x: x["k"] == "Return" and x.get("c") and x["c"][0] is not None and x["c"][0]["k"] == "Int" and x["c"][0]["v"] == 0
+    n = 0
+    for what, names in (("invalidates the memorised neighbourhood", ("setIsChanged", "reset")), ("rebuilds the ball tree", ("attachBall",))):
+        n += 1
+        bar = lambda x, names=names: x["k"] == "MCall" and (x.get("callee") or "").split("::")[-1] in names
+        if not any(bar(x) for x in f.walk()):
+            chk.ob("C06m", "ANeigh::attach %s on every successful path" % what, f.loc(), False, detail="the call is absent", key="C06m|attach|%s" % names[0])
+            continue
+        w = g.search(g.entry_pos(), is_target=ok_ret, is_barrier=bar)
+        chk.ob("C06m", "ANeigh::attach %s on every successful path" % what, f.loc(), w is None,
+               detail=None if w is None else "a path returns success without it: after the data bases were edited in place and attached again, the search still "
+               "answers from the previous state (stale memo / stale tree)", key="C06m|attach|%s" % names[0], path=None if w is None else g.describe(w))
+    chk.floor("C06m", n, 2)
+
+
 def ball_count_rule(prog, chk):
     """C06b - the number of points asked from the ball tree is bounded by the number of points it holds (the tree refuses
     k > n and the search then fails for EVERY target, although 'the nmaxi closest' are simply all the samples)."""
@@ -442,4 +487,6 @@ def main(tier):
     kinds_rule(prog, chk)
     distance_rule(prog, chk)
     ball_count_rule(prog, chk)
+    distance_use_rule(prog, chk)
+    attach_rule(prog, chk)
     return chk.finish()
